@@ -123,7 +123,7 @@ func deliveryLabels(c DeliveryCase, st *dStats) []string {
 }
 
 func checkDelivery(rt *rapid.T, c DeliveryCase) {
-	st, err := runDelivery(c)
+	st, err := pbt.Safe(runDelivery, c)
 	if st == nil {
 		st = &dStats{}
 	}
